@@ -82,6 +82,23 @@ let run ~seed ~tier oc =
       | _ -> ()
     end
   done;
+  (* the same kind of templates behind more than 4096 bytes of text with lone braces, so that the
+     large-template tokenizer is the one the engine uses *)
+  let ml = if tier = "thorough" then 2000 else 120 in
+  let made = ref 0 and tries = ref 0 in
+  while !made < ml && !tries < 20 * ml do
+    incr tries;
+    let filler = String.concat "" (List.init (480 + rint r 60) (fun i -> pick r [| "body { color: red } "; "lorem ipsum dolor sit amet, "; "if (a) { b } % c # d - "; "<p class=\"x\">\n"; "} else { "; "50% off # now \\ then " |])) in
+    let segs = merge_texts (SText (b filler) :: gen_segments r) in
+    if roundtrips segs then begin
+      match lex_small (unparse segs) with
+      | LexOk ts ->
+          (match predicted_output ts with
+           | Some out -> incr made; emit oc (Ob [ "stream", JS "segments-large"; "src", JS (hexb (unparse segs)); "lex", JS "skip"; "out", JS (hex out) ])
+           | None -> ())
+      | _ -> ()
+    end
+  done;
   (* verbatim bodies in several enclosing constructs; oracle only (two contexts, no context data) *)
   let nv = if tier = "thorough" then 4000 else 400 in
   for _ = 1 to nv do
